@@ -108,8 +108,32 @@ class CacheWorld:
         w.origin = self.origin
         w.oconns = []
         w.total_origin_requests = 0
+        # the virtual clock never runs backwards across lives (the first life starts one minute after the epoch,
+        # i.e. after the life that may have prepared the template)
+        sq.now_us = (self.sq.now_us + 1_000_000) if self.sq is not None else ls.T0_US + 60_000_000
         self.w, self.sq = w, sq
         return sq
+
+    def quiesce(self, timeout=5.0):
+        """Wait (real time) until the unlinkd helper of the running instance has worked off its queue, i.e. is
+        blocked reading its stdin while squid is idle: keeps the order of its unlinks relative to squid's later
+        actions fixed."""
+        dl = time.time() + timeout
+        for pid in self.children:
+            try:
+                if not os.readlink('/proc/%d/exe' % pid).endswith('unlinkd'):
+                    continue
+            except OSError:
+                continue
+            while time.time() < dl:
+                try:
+                    with open('/proc/%d/syscall' % pid) as f:
+                        t = f.read().split()
+                except OSError:
+                    break
+                if len(t) >= 2 and t[0] == '0' and t[1] == '0x0':
+                    break
+                time.sleep(0.002)
 
     def _bring_up(self, sq, ready_s=120):
         """Kick the fresh process until it listens and has finished rebuilding.  None = up; str = it died."""
